@@ -77,8 +77,13 @@ type MdnsManager struct {
 
 	providerSelection MdnsProviderSelection
 
+	// reports are delivered on their own goroutines; the sequence numbers make sure
+	// an older snapshot is never delivered after a newer one
+	reportSeq, reportedSeq uint64
+
 	mux,
-	muxAnnounced sync.Mutex
+	muxAnnounced,
+	muxReport sync.Mutex
 }
 
 func shortenString(s string, maxLen int) string {
@@ -382,8 +387,16 @@ func (m *MdnsManager) mdnsEntries() map[string]*api.MdnsEntry {
 }
 
 func (m *MdnsManager) copyMdnsEntries() map[string]*api.MdnsEntry {
+	entries, _ := m.copyMdnsEntriesWithSeq()
+	return entries
+}
+
+// return a copy of the entries together with the sequence number of this snapshot
+func (m *MdnsManager) copyMdnsEntriesWithSeq() (map[string]*api.MdnsEntry, uint64) {
 	m.mux.Lock()
 	defer m.mux.Unlock()
+
+	m.reportSeq++
 
 	mdnsEntries := make(map[string]*api.MdnsEntry)
 	for k, v := range m.entries {
@@ -392,7 +405,25 @@ func (m *MdnsManager) copyMdnsEntries() map[string]*api.MdnsEntry {
 		mdnsEntries[k] = newEntry
 	}
 
-	return mdnsEntries
+	return mdnsEntries, m.reportSeq
+}
+
+// report a snapshot of the entries asynchronously, dropping it if a newer
+// snapshot has already been delivered
+func (m *MdnsManager) reportMdnsEntries(newEntries bool) {
+	entries, seq := m.copyMdnsEntriesWithSeq()
+
+	go func() {
+		m.muxReport.Lock()
+		defer m.muxReport.Unlock()
+
+		if seq < m.reportedSeq {
+			return
+		}
+		m.reportedSeq = seq
+
+		m.report.ReportMdnsEntries(entries, newEntries)
+	}()
 }
 
 func (m *MdnsManager) mdnsEntry(ski string) (*api.MdnsEntry, bool) {
@@ -565,8 +596,7 @@ func (m *MdnsManager) processMdnsEntry(elements map[string]string, name, host st
 		return
 	}
 
-	entries := m.copyMdnsEntries()
-	go m.report.ReportMdnsEntries(entries, true)
+	m.reportMdnsEntries(true)
 }
 
 func (m *MdnsManager) RequestMdnsEntries() {
@@ -574,6 +604,5 @@ func (m *MdnsManager) RequestMdnsEntries() {
 		return
 	}
 
-	entries := m.copyMdnsEntries()
-	go m.report.ReportMdnsEntries(entries, false)
+	m.reportMdnsEntries(false)
 }
